@@ -796,7 +796,7 @@ func (r *c13Run) exec(s c13Step) bool {
 	case "WaitReq":
 		// wait (for the condition, bounded) until the peer has been sent s.H block requests: every
 		// requester that picked it has stored the peer id by then
-		for i := 0; i < 20000 && len(r.pendingOf(s.P)) < int(s.H) && !r.isHanded(); i++ {
+		for i := 0; i < 20000 && !r.allRequested(s.P, int(s.H)) && !r.isHanded(); i++ {
 			time.Sleep(500 * time.Microsecond)
 		}
 		return true
@@ -869,6 +869,35 @@ func (r *c13Run) owes(name string) bool {
 	defer pool.mtx.Unlock()
 	bp := pool.peers[c13PeerID(name)]
 	return bp != nil && !bp.didTimeout && bp.numPending > 0
+}
+
+// the peer has been sent want requests, or as many as the pool can ask it for right now (every
+// requester in its range has a peer or the peer's window is full) and each of the requesters that
+// picked it has stored its id and sent its request
+func (r *c13Run) allRequested(name string, want int) bool {
+	sent := len(r.pendingOf(name))
+	if sent >= want {
+		return true
+	}
+	pool := r.bcR.pool
+	pool.mtx.Lock()
+	defer pool.mtx.Unlock()
+	bp := pool.peers[c13PeerID(name)]
+	if bp == nil {
+		return false
+	}
+	if sent < int(bp.numPending) {
+		return false
+	}
+	if bp.numPending >= maxPendingRequestsPerPeer {
+		return true
+	}
+	for h, q := range pool.requesters {
+		if h >= bp.base && h <= bp.height && q.getPeerID() == "" {
+			return false
+		}
+	}
+	return int64(len(pool.requesters)) >= bp.height-pool.height+1 || pool.maxPeerHeight > bp.height
 }
 
 // some requester has a peer assigned and no block: its 30 s retry timer is running
